@@ -150,6 +150,28 @@ pub fn set_clock(_now: u64) {
     helgoboss_midi::verif_hooks::set_mock_time(_now);
 }
 
+thread_local! {
+    static CONSTRUCTIONS: std::cell::Cell<u32> = std::cell::Cell::new(0);
+    static FORCE_CONSTRUCTION: std::cell::Cell<Option<bool>> = std::cell::Cell::new(None);
+}
+
+/// Every other monitor creates its scanner with `Default::default()` instead of `new()` (the
+/// statements speak about scanners, however they were created). Replays force one or the other.
+pub fn construct_by_default() -> bool {
+    if let Some(f) = FORCE_CONSTRUCTION.with(|c| c.get()) {
+        return f;
+    }
+    CONSTRUCTIONS.with(|c| {
+        let n = c.get();
+        c.set(n.wrapping_add(1));
+        n % 2 == 1
+    })
+}
+
+pub fn force_construction(by_default: Option<bool>) {
+    FORCE_CONSTRUCTION.with(|c| c.set(by_default));
+}
+
 /// clock steps used to show that the clock-free scanners do not depend on time: 1 ns, around
 /// 1 s, just past 2^32 ns / 1 h / 2^32 us / 2^32 ms, 400 days
 pub const TIME_SHIFTS: [u64; 8] = [
@@ -180,8 +202,13 @@ pub struct Cc14Mon {
 impl Cc14Mon {
     pub fn new() -> Self {
         set_clock(0);
+        let real = if construct_by_default() {
+            api("ControlChange14BitMessageScanner::default", ControlChange14BitMessageScanner::default).unwrap_or_else(ControlChange14BitMessageScanner::new)
+        } else {
+            ControlChange14BitMessageScanner::new()
+        };
         Cc14Mon {
-            real: ControlChange14BitMessageScanner::new(),
+            real,
             last_msb: [None; 16],
             now: 0,
             rot: 0,
@@ -374,8 +401,13 @@ pub struct PnMon {
 impl PnMon {
     pub fn new() -> Self {
         set_clock(0);
+        let real = if construct_by_default() {
+            api("ParameterNumberMessageScanner::default", ParameterNumberMessageScanner::default).unwrap_or_else(ParameterNumberMessageScanner::new)
+        } else {
+            ParameterNumberMessageScanner::new()
+        };
         PnMon {
-            real: ParameterNumberMessageScanner::new(),
+            real,
             h: [PnHist::default(); 16],
             now: 0,
             rot: 0,
